@@ -92,7 +92,7 @@ def check_daqmx(case, rec):
     fs = case['fs']
     n = len(fs['segments'])
     exd = expected_daqmx(fs)                     # defined by the little-endian encoding
-    rec.nontrivial(any(s['type'] not in ('u8', 'i8') for seg in fs['segments'] for e in seg['entries'] for s in e['scalers']))
+    rec.nontrivial(any(s['type'] not in ('u8', 'i8') for seg in fs['segments'] for e in seg['entries'] if e.get('hdr') == 'daqmx' for s in e['scalers']))
     rec.label('daqmx')
     for name, order in (('little', [False] * n), ('big', [True] * n), ('mixed', case['mix'])):
         segs = [reencode_big_endian(seg) if be else seg for seg, be in zip(fs['segments'], order)]
